@@ -154,6 +154,11 @@ def directed_sets():
                  S.Enum('EAll', [('EAll_a', 'EA_x + EB_x'), ('EAll_b', 'EAll_a + 1'), ('EAll_c', '2*EAll_b')]),
                  S.Struct('SUse', [M('q', 'u8', 'fixed', size='EAll_a')])]
     out.append(sc)
+    # definitions whose names look like built-in types but are not (r8, r16, u128): taken for built-ins by the sorter until c5d... (D78)
+    sc = S.Schema()
+    sc.decls += [S.Const('r16', 3), S.Const('A', 'r16 + 1'), S.Struct('r8', [M('y', 'u8'), M('z', 'u32')]), S.Typedef('u128', 'r8'),
+                 S.Struct('X', [M('f', 'r8'), M('a', 'u8', 'fixed', size='A'), M('g', 'u128')])]
+    out.append(sc)
     return out
 
 
